@@ -287,7 +287,10 @@ pub fn format_filesize(size: u64, modifier: &str) -> String {
     if let Some(cap) = FILE_SIZE_FORMAT_REGEX.captures(&modifier) {
         zeroes = cap
             .name("zeroes")
-            .map_or(-1, |m| m.as_str().parse::<i32>().unwrap());
+            .map_or(-1, |m| match m.as_str().parse::<u16>() {
+                Ok(zeroes) => zeroes as i32,
+                _ => error_exit("Incorrect file size format", &modifier),
+            });
         space = cap.name("space").map_or(false, |m| m.as_str() == " ");
         modifier = cap
             .name("units")
